@@ -6,6 +6,8 @@ import ChythonModel.Proofs.C07Stack
 import ChythonModel.Proofs.C07Top
 import ChythonModel.Proofs.C07Multi3
 import ChythonModel.Proofs.C07Multi4
+import ChythonModel.Proofs.C07StereoSpec
+import ChythonModel.Spec.StereoMatch
 /-!
 # C07 — substructure search returns exactly the set of valid embeddings
 
@@ -510,6 +512,212 @@ theorem iso_single_filtered (p : Problem) (hq : p.q.WF = true) (ht : p.t.WF = tr
 
 /-! ## `lazy_product` and `itertools.permutations` (component assignment of multi-component patterns) -/
 
+/-! ## the stereo post-filter of `QueryIsomorphism.get_mapping` (`Model/IsoStereo.lean`) -/
+
+section stereo
+open ChythonModel.Model.Stereo ChythonModel.Spec ChythonModel.Spec.StereoMatch
+
+/-- **the filter only removes mappings**: whenever the post-filter ends normally its result is a sub-list of the mappings of the
+    underlying search (nothing added, nothing reordered, nothing duplicated) and contains exactly those on which every step
+    passed. -/
+theorem stereo_filter_sublist (q : Graph) (qm : QMarks) (tl : TLabels) (ms r : List Dict)
+    (h : stereoFilter q qm tl ms = .ok r) :
+    r.Sublist ms ∧ ∀ m, m ∈ r ↔ m ∈ ms ∧ keepMapping q qm tl m = .ok true := by
+  obtain ⟨e, _⟩ := stereoFilter_ok q qm tl ms r h
+  subst e
+  refine ⟨List.filter_sublist, fun m => ?_⟩
+  rw [List.mem_filter, keeps_iff]
+
+/-- the filter raises iff some mapping of the underlying search makes a step raise (never silently) -/
+theorem stereo_filter_outcome (q : Graph) (qm : QMarks) (tl : TLabels) (ms : List Dict) :
+    (∃ r, stereoFilter q qm tl ms = .ok r) ↔ ∀ m ∈ ms, ∃ b, keepMapping q qm tl m = .ok b := by
+  constructor
+  · rintro ⟨r, h⟩
+    exact (stereoFilter_ok q qm tl ms r h).2
+  · exact stereoFilter_total q qm tl ms
+
+/-- a mapping is yielded iff EVERY marked query atom and EVERY marked query bond passes its own test — independent of the order
+    in which `self.atoms()` / `self.bonds()` enumerate them -/
+theorem keep_iff_every_mark_passes (q : Graph) (qm : QMarks) (tl : TLabels) (m : Dict) :
+    keepMapping q qm tl m = .ok true ↔
+      (∀ n ∈ q.atoms, ∀ mark, qm.atom n = some mark → atomStep q tl m n mark = .ok true) ∧
+      (∀ b ∈ bondsOf q, ∀ mark, qm.bond b.1 b.2 = some mark → bondStep q tl m b.1 b.2 mark = .ok true) :=
+  keepMapping_true_iff' q qm tl m
+
+/-- **a query without marks is unaffected**, whatever the target's labels and stereo tables are -/
+theorem stereo_filter_no_marks (q : Graph) (qm : QMarks) (tl : TLabels) (ms : List Dict)
+    (ha : ∀ n ∈ q.atoms, qm.atom n = none) (hb : ∀ b ∈ bondsOf q, qm.bond b.1 b.2 = none) :
+    stereoFilter q qm tl ms = .ok ms := by
+  have hk : ∀ m, keepMapping q qm tl m = .ok true := fun m => by
+    rw [keepMapping_true_iff']
+    refine ⟨fun n hn mark hm => ?_, fun b hb' mark hm => ?_⟩
+    · rw [ha n hn] at hm; cases hm
+    · rw [hb b hb'] at hm; cases hm
+  induction ms with
+  | nil => rfl
+  | cons m rest ih => simp [stereoFilter, hk m, ih]
+
+/-- "stereo in query should match only stereo atom" / "chiral query bond matches only chiral molecule bond" -/
+theorem mark_on_unlabelled_image_rejects (q : Graph) (tl : TLabels) (mapping : Dict) (n k x y : Nat) (mark : Bool)
+    (hn : mapping.lookup n = some x) (hk : mapping.lookup k = some y) :
+    (tl.atom x = none → atomStep q tl mapping n mark = .ok false) ∧
+    (tl.bond x y = some none → bondStep q tl mapping n k mark = .ok false) :=
+  ⟨atomStep_unlabelled q tl mapping n x mark hn, bondStep_unlabelled q tl mapping n k x y mark hn hk⟩
+
+/-- **tetrahedral mark, four heavy neighbours, all four listed by the query** (any arrangement): the step passes iff the
+    target's label re-read in the listed order (inversion-count parity, `Spec/Parity.lean`) equals the mark -/
+theorem mark_tetra_four_listed (q : Graph) (tl : TLabels) (mapping : Dict) (n m : Nat) (mark s : Bool) (a b c d : Nat)
+    (env : List Nat) (hm : mapping.lookup n = some m) (hl : tl.atom m = some s)
+    (ht : tl.tetra.lookup m = some [a, b, c, d]) (hnd : [a, b, c, d].Nodup)
+    (he : imagesOf mapping (q.nbrs n) = .ok env) (hp : env.Perm [a, b, c, d]) :
+    atomStep q tl mapping n mark = .ok (tetraAgrees [a, b, c, d] env s mark) := by
+  rw [atomStep_tetra q tl mapping n m mark s _ env hm hl ht he, translateTetra_perm4 a b c d hnd env hp]
+  rfl
+
+/-- **three of the four heavy neighbours listed**: the unlisted one counts as last -/
+theorem mark_tetra_three_of_four (q : Graph) (tl : TLabels) (mapping : Dict) (n m : Nat) (mark s : Bool) (a b c d x : Nat)
+    (env : List Nat) (hm : mapping.lookup n = some m) (hl : tl.atom m = some s)
+    (ht : tl.tetra.lookup m = some [a, b, c, d]) (hnd : [a, b, c, d].Nodup)
+    (he : imagesOf mapping (q.nbrs n) = .ok env) (h3 : env.length = 3) (hp : (env ++ [x]).Perm [a, b, c, d]) :
+    atomStep q tl mapping n mark = .ok (tetraAgrees [a, b, c, d] (env ++ [x]) s mark) := by
+  have hlen : (env ++ [x]).length = 4 := by simp [h3]
+  have htk : (env ++ [x]).take 3 = env := by
+    rw [← h3]; simp
+  have := translateTetra_take3 [a, b, c, d] (env ++ [x]) rfl hlen tl.isH none (some s)
+  rw [htk] at this
+  rw [atomStep_tetra q tl mapping n m mark s _ env hm hl ht he, this, translateTetra_perm4 a b c d hnd _ hp]
+  rfl
+
+/-- **three heavy neighbours and an implicit hydrogen**: the three listed in any arrangement -/
+theorem mark_tetra_implicit_h (q : Graph) (tl : TLabels) (mapping : Dict) (n m : Nat) (mark s : Bool) (a b c : Nat)
+    (env : List Nat) (hm : mapping.lookup n = some m) (hl : tl.atom m = some s)
+    (ht : tl.tetra.lookup m = some [a, b, c]) (hnd : [a, b, c].Nodup)
+    (he : imagesOf mapping (q.nbrs n) = .ok env) (hp : env.Perm [a, b, c]) :
+    atomStep q tl mapping n mark = .ok (tetraAgrees [a, b, c] env s mark) := by
+  rw [atomStep_tetra q tl mapping n m mark s _ env hm hl ht he, translateTetra_implicitH a b c hnd env hp]
+  rfl
+
+/-- **three heavy neighbours and an explicit hydrogen `h`** listed anywhere: hydrogen is last in the reference order -/
+theorem mark_tetra_explicit_h (q : Graph) (tl : TLabels) (mapping : Dict) (n m : Nat) (mark s : Bool) (a b c h : Nat)
+    (env : List Nat) (hm : mapping.lookup n = some m) (hl : tl.atom m = some s)
+    (ht : tl.tetra.lookup m = some [a, b, c]) (hnd : [a, b, c].Nodup)
+    (ha : tl.isH a = false) (hb : tl.isH b = false) (hc : tl.isH c = false) (hh : tl.isH h = true)
+    (he : imagesOf mapping (q.nbrs n) = .ok env) (hp : env.Perm [a, b, c, h]) :
+    atomStep q tl mapping n mark = .ok (tetraAgrees [a, b, c, h] env s mark) := by
+  rw [atomStep_tetra q tl mapping n m mark s _ env hm hl ht he, translateTetra_explicitH a b c h hnd ha hb hc hh env hp]
+  rfl
+
+/-- **allene mark**: with `n1` / `m1` the images of the first listed substituents of the two terminal query atoms, sitting in
+    slots `k0` / `k1` of the target's environment, the step passes iff label xor flip(k0, k1) equals the mark -/
+theorem mark_allene_slots (q : Graph) (tl : TLabels) (mapping : Dict) (n m : Nat) (mark s : Bool) (ot1 ot2 n1 m1 : Nat)
+    (e : Ends) (hm : mapping.lookup n = some m) (hl : tl.atom m = some s) (ht : tl.tetra.lookup m = none)
+    (hterm : tl.alleneTerm.lookup m = some (ot1, ot2)) (hal : tl.allenes.lookup m = some e) (wf : EndsWF e tl.isH)
+    (hpick : pickNeighbours q mapping (reverseDict mapping) e ot1 ot2 = .ok (n1, m1))
+    (k0 k1 : Nat) (hk0 : k0 = 0 ∨ k0 = 2) (hk1 : k1 = 1 ∨ k1 = 3) (s0 : IsSlot e tl.isH k0 n1) (s1 : IsSlot e tl.isH k1 m1) :
+    atomStep q tl mapping n mark = .ok (endsAgrees k0 k1 s mark) := by
+  rw [atomStep_allene q tl mapping n m mark s ot1 ot2 n1 m1 e hm hl ht hterm hal hpick,
+    translateEnds_slots e tl.isH wf k0 k1 n1 m1 hk0 hk1 s0 s1 s]
+  rfl
+
+/-- **double-bond mark**: the same flip rule with the label of the central bond of the target's double-bond chain -/
+theorem mark_double_bond_slots (q : Graph) (tl : TLabels) (mapping : Dict) (n k on om : Nat) (mark s l : Bool)
+    (ot1 ot2 n1 m1 : Nat) (e : Ends) (hn : mapping.lookup n = some on) (hk : mapping.lookup k = some om)
+    (hb : tl.bond on om = some (some l)) (hterm : tl.ctTerm.lookup on = some (ot1, ot2))
+    (hct : tl.cisTrans.lookup (ot1, ot2) = some e) (hc : centralLabel tl ot1 = some s) (wf : EndsWF e tl.isH)
+    (hpick : pickNeighbours q mapping (reverseDict mapping) e ot1 ot2 = .ok (n1, m1))
+    (k0 k1 : Nat) (hk0 : k0 = 0 ∨ k0 = 2) (hk1 : k1 = 1 ∨ k1 = 3) (s0 : IsSlot e tl.isH k0 n1) (s1 : IsSlot e tl.isH k1 m1) :
+    bondStep q tl mapping n k mark = .ok (endsAgrees k0 k1 s mark) := by
+  rw [bondStep_labelled q tl mapping n k on om mark s l ot1 ot2 n1 m1 e hn hk hb hterm hct hc hpick,
+    translateEnds_slots e tl.isH wf k0 k1 n1 m1 hk0 hk1 s0 s1 s]
+  rfl
+
+/-- **`get_mapping_stereo_exact`** — `get_mapping_exact` extended to `QueryIsomorphism.get_mapping(automorphism_filter=False)`:
+    the call is the post-filter applied to the exact embedding list `r0`; whenever it ends normally the result is duplicate free, a
+    sub-list of `r0`, and contains exactly the dicts of the valid embeddings on which every marked atom and bond passes; it ends
+    normally iff no valid embedding makes a step raise. -/
+theorem get_mapping_stereo_exact (p : Problem) (qm : QMarks) (tl : TLabels) (hq : p.q.WF = true) (ht : p.t.WF = true)
+    (hpart : checkComponents p.t p.tComps = true) (hb : BondSymm p.bondOk) (hatoms : p.q.atoms ≠ [])
+    (haf : p.autoFilter = false) :
+    ∃ comps cl r0, compileQuery p.q = some (comps, cl) ∧ isoGetMapping p = some r0 ∧
+      queryGetMapping p qm tl = some (stereoFilter p.q qm tl r0) ∧
+      (∀ r, stereoFilter p.q qm tl r0 = .ok r → r.Nodup ∧ r.Sublist r0 ∧
+        ∀ m, m ∈ r ↔ ∃ f, m = asDict (comps.flatten.map (·.front)) f ∧
+          IsEmbedding p.q p.t (scopeFn p.scope) p.atomOk p.bondOk f ∧ keepMapping p.q qm tl m = .ok true) ∧
+      ((∃ r, stereoFilter p.q qm tl r0 = .ok r) ↔
+        ∀ f, IsEmbedding p.q p.t (scopeFn p.scope) p.atomOk p.bondOk f →
+          ∃ b, keepMapping p.q qm tl (asDict (comps.flatten.map (·.front)) f) = .ok b) := by
+  obtain ⟨comps, cl, r0, hcq, hr, hnd, hmem⟩ := get_mapping_exact p hq ht hpart hb hatoms haf
+  refine ⟨comps, cl, r0, hcq, hr, by simp [queryGetMapping, hr], ?_, ?_⟩
+  · intro r h
+    obtain ⟨hs, hm⟩ := stereo_filter_sublist p.q qm tl r0 r h
+    refine ⟨hs.nodup hnd, hs, fun m => ?_⟩
+    rw [hm, hmem]
+    constructor
+    · rintro ⟨⟨f, e, isE⟩, hk⟩
+      exact ⟨f, e, isE, hk⟩
+    · rintro ⟨f, e, isE, hk⟩
+      exact ⟨⟨f, e, isE⟩, hk⟩
+  · rw [stereo_filter_outcome]
+    constructor
+    · intro h f isE
+      exact h _ ((hmem _).2 ⟨f, rfl, isE⟩)
+    · intro h m hm
+      obtain ⟨f, e, isE⟩ := (hmem m).1 hm
+      subst e
+      exact h f isE
+
+/-- for a query without marks the whole call IS the exact embedding list (`get_mapping_exact` carries over unchanged) -/
+theorem get_mapping_stereo_no_marks (p : Problem) (qm : QMarks) (tl : TLabels) (hq : p.q.WF = true) (ht : p.t.WF = true)
+    (hpart : checkComponents p.t p.tComps = true) (hb : BondSymm p.bondOk) (hatoms : p.q.atoms ≠ [])
+    (haf : p.autoFilter = false)
+    (ha : ∀ n ∈ p.q.atoms, qm.atom n = none) (hbm : ∀ b ∈ bondsOf p.q, qm.bond b.1 b.2 = none) :
+    ∃ comps cl r, compileQuery p.q = some (comps, cl) ∧ queryGetMapping p qm tl = some (.ok r) ∧ r.Nodup ∧
+      ∀ m, m ∈ r ↔ ∃ f, m = asDict (comps.flatten.map (·.front)) f ∧
+        IsEmbedding p.q p.t (scopeFn p.scope) p.atomOk p.bondOk f := by
+  obtain ⟨comps, cl, r0, hcq, hr, hnd, hmem⟩ := get_mapping_exact p hq ht hpart hb hatoms haf
+  refine ⟨comps, cl, r0, hcq, ?_, hnd, hmem⟩
+  simp [queryGetMapping, hr, stereo_filter_no_marks p.q qm tl r0 ha hbm]
+
+/-- FULL statement for `automorphism_filter=True` (the property's second sentence read for stereo queries): one survivor per
+    image set of the embeddings that pass the stereo test.  It does NOT hold for the code as it is: the `seen` filter runs
+    before the stereo test, so an image set whose first representative fails is lost although another representative passes
+    (`known_findings/C07.json`: `C07/stereo/automorphism-filter-before-stereo-test`, witness in `Findings/C07.lean`). -/
+def StereoFilteredFull (p : Problem) (qm : QMarks) (tl : TLabels) : Prop :=
+  ∀ comps cl r0 r, compileQuery p.q = some (comps, cl) → isoUnfiltered p comps cl = some r0 →
+    queryGetMapping p qm tl = some (.ok r) →
+    ∀ m ∈ r0, keepMapping p.q qm tl m = .ok true → ∃ m' ∈ r, setEq (vals m) (vals m') = true
+
+/-- what DOES hold with the filter: the result is a sub-list of the `seen`-filtered exact list — every survivor is a valid
+    embedding passing every mark, no two survivors share an image set; and when the query has no marks every image set is
+    represented (the excluded class is exactly: marked queries whose first-yielded representative of an image set fails). -/
+theorem get_mapping_stereo_filtered_partial (p : Problem) (qm : QMarks) (tl : TLabels) (hq : p.q.WF = true) (ht : p.t.WF = true)
+    (hpart : checkComponents p.t p.tComps = true) (hb : BondSymm p.bondOk) (hatoms : p.q.atoms ≠ [])
+    (haf : p.autoFilter = true) :
+    ∃ comps cl r0, compileQuery p.q = some (comps, cl) ∧ isoUnfiltered p comps cl = some r0 ∧
+      queryGetMapping p qm tl = some (stereoFilter p.q qm tl (autoFilter r0)) ∧
+      (∀ r, stereoFilter p.q qm tl (autoFilter r0) = .ok r →
+        r.Sublist (autoFilter r0) ∧
+        r.Pairwise (fun a b => setEq (vals a) (vals b) = false) ∧
+        (∀ m ∈ r, keepMapping p.q qm tl m = .ok true ∧ ∃ f, m = asDict (comps.flatten.map (·.front)) f ∧
+          IsEmbedding p.q p.t (scopeFn p.scope) p.atomOk p.bondOk f)) ∧
+      ((∀ n ∈ p.q.atoms, qm.atom n = none) → (∀ b ∈ bondsOf p.q, qm.bond b.1 b.2 = none) →
+        queryGetMapping p qm tl = some (.ok (autoFilter r0)) ∧
+        ∀ m ∈ r0, ∃ m' ∈ autoFilter r0, setEq (vals m) (vals m') = true) := by
+  obtain ⟨comps, cl, r0, hcq, hr, _, hmem⟩ := iso_unfiltered_exact p hq ht hpart hb hatoms
+  obtain ⟨f1, f2, f3⟩ := filter_one_per_image_set r0
+  have hiso : isoGetMapping p = some (autoFilter r0) := by
+    unfold isoGetMapping; simp [hcq, hr, haf]
+  refine ⟨comps, cl, r0, hcq, hr, by simp [queryGetMapping, hiso], ?_, ?_⟩
+  · intro r h
+    obtain ⟨hs, hm⟩ := stereo_filter_sublist p.q qm tl _ r h
+    refine ⟨hs, f2.sublist hs, fun m hmr => ?_⟩
+    obtain ⟨hin, hk⟩ := (hm m).1 hmr
+    exact ⟨hk, (hmem m).1 (f1.subset hin)⟩
+  · intro ha hbm
+    refine ⟨by simp [queryGetMapping, hiso, stereo_filter_no_marks p.q qm tl _ ha hbm], f3⟩
+
+end stereo
+
 /-- **`lazyProduct_exact`**: `lazy_product(*args)` yields a rearrangement of the cartesian product — every combination (by
     position) exactly once — and yields nothing iff some factor is empty. -/
 theorem lazyProduct_exact {α : Type} (args : List (List α)) :
@@ -637,5 +845,80 @@ def pTwo (scope : Option (List Nat)) : Problem :=
     autoFilter := false, atomOk := fun _ _ => true, bondOk := fun _ _ _ _ => true }
 example : (isoGetMapping (pTwo none)).map List.length = some 24 := by decide
 example : (isoGetMapping (pTwo (some [10, 20, 21]))).map List.length = some 4 := by decide
+
+/-! ### the stereo post-filter on concrete values (hypotheses of the stereo theorems are satisfiable) -/
+
+section stereoExamples
+open ChythonModel.Model.Stereo ChythonModel.Spec.StereoMatch
+
+/-- the star: centre 2 with neighbours 1, 3, 4, 5 — query `[A][C@]([A])([A])[A]` and target `F[C@](Cl)(Br)I` share the shape -/
+def qStar : Graph := ⟨[1, 2, 3, 4, 5], [(1, [2]), (2, [1, 3, 4, 5]), (3, [2]), (4, [2]), (5, [2])]⟩
+
+def pStar (af : Bool) : Problem :=
+  { q := qStar, t := qStar, tComps := [[1, 2, 3, 4, 5]], scope := none, autoFilter := af,
+    atomOk := fun u x => u != 2 || x == 2, bondOk := fun _ _ _ _ => true }
+
+/-- `[C@]` on atom 2 -/
+def qmStar : QMarks := { atom := fun u => if u == 2 then some true else none, bond := fun _ _ => none }
+
+/-- the target centre 2 carries label `s` relative to the neighbour order (1, 3, 4, 5) -/
+def tlStar (s : Bool) : TLabels :=
+  { atom := fun x => if x == 2 then some s else none, bond := fun _ _ => some none, tetra := [(2, [1, 3, 4, 5])],
+    allenes := [], alleneTerm := [], cisTrans := [], ctTerm := [], ctCenter := [], isH := fun _ => false }
+
+example : (pStar false).q.WF = true ∧ (pStar false).t.WF = true ∧ checkComponents qStar [[1, 2, 3, 4, 5]] = true ∧
+    BondSymm (pStar false).bondOk ∧ (pStar false).q.atoms ≠ [] := by
+  refine ⟨by decide, by decide, by decide, fun _ _ _ _ => rfl, by decide⟩
+
+/-- 24 embeddings, 12 pass the mark (the even arrangements for label `true`) -/
+example : (isoGetMapping (pStar false)).map List.length = some 24 ∧
+    (queryGetMapping (pStar false) qmStar (tlStar true)).map (·.map List.length) = some (.ok 12) := by
+  refine ⟨by decide, by decide⟩
+
+/-- identity arrangement passes for label `true`, the transposition 1↔3 fails — and the other way round for the mirror image -/
+example : stereoFilter qStar qmStar (tlStar true)
+      [[(1, 1), (2, 2), (3, 3), (4, 4), (5, 5)], [(1, 3), (2, 2), (3, 1), (4, 4), (5, 5)]] =
+    .ok [[(1, 1), (2, 2), (3, 3), (4, 4), (5, 5)]] ∧
+    stereoFilter qStar qmStar (tlStar false)
+      [[(1, 1), (2, 2), (3, 3), (4, 4), (5, 5)], [(1, 3), (2, 2), (3, 1), (4, 4), (5, 5)]] =
+    .ok [[(1, 3), (2, 2), (3, 1), (4, 4), (5, 5)]] := by
+  refine ⟨by decide, by decide⟩
+
+/-- hypotheses of `mark_tetra_four_listed` on the star (`env = [3, 1, 4, 5]`, an odd arrangement of `[1, 3, 4, 5]`) -/
+example : ([(1, 3), (2, 2), (3, 1), (4, 4), (5, 5)] : Dict).lookup 2 = some 2 ∧ (tlStar true).atom 2 = some true ∧
+    (tlStar true).tetra.lookup 2 = some [1, 3, 4, 5] ∧ [1, 3, 4, 5].Nodup ∧
+    imagesOf [(1, 3), (2, 2), (3, 1), (4, 4), (5, 5)] (qStar.nbrs 2) = .ok [3, 1, 4, 5] ∧
+    [3, 1, 4, 5].Perm [1, 3, 4, 5] ∧ tetraAgrees [1, 3, 4, 5] [3, 1, 4, 5] true true = false := by
+  refine ⟨by decide, by decide, by decide, by decide, by decide, by decide, by decide⟩
+
+/-- a query without marks: nothing is removed, whatever the labels -/
+example : stereoFilter qStar { atom := fun _ => none, bond := fun _ _ => none } (tlStar true)
+    [[(1, 1), (2, 2), (3, 3), (4, 4), (5, 5)], [(1, 3), (2, 2), (3, 1), (4, 4), (5, 5)]] =
+    .ok [[(1, 1), (2, 2), (3, 3), (4, 4), (5, 5)], [(1, 3), (2, 2), (3, 1), (4, 4), (5, 5)]] := by decide
+
+/-- a marked centre that lists only two neighbours: the translation raises `ValueError` (as the real code does) -/
+example : stereoFilter ⟨[1, 2, 3], [(1, [2]), (2, [1, 3]), (3, [2])]⟩ qmStar (tlStar true) [[(1, 1), (2, 2), (3, 3)]] =
+    .error .valueError := by decide
+
+/-- `F/C=C/F` (atoms 1 F, 2 C, 3 C, 4 F), label `s` on the double bond relative to the substituent pair (1, 4) -/
+def qButene : Graph := ⟨[1, 2, 3, 4], [(1, [2]), (2, [1, 3]), (3, [2, 4]), (4, [3])]⟩
+
+def tlButene (s : Bool) : TLabels :=
+  { atom := fun _ => none, bond := fun x y => if (x, y) = (2, 3) ∨ (x, y) = (3, 2) then some (some s) else some none,
+    tetra := [], allenes := [], alleneTerm := [], cisTrans := [((2, 3), ⟨1, 4, none, none⟩)],
+    ctTerm := [(2, 2, 3), (3, 2, 3)], ctCenter := [(2, 2, 3), (3, 2, 3)], isH := fun _ => false }
+
+/-- hypotheses of `mark_double_bond_slots` on the identity mapping of `F/C=C/F`: substituents in slots 0 and 1 -/
+example : pickNeighbours qButene [(1, 1), (2, 2), (3, 3), (4, 4)] (reverseDict [(1, 1), (2, 2), (3, 3), (4, 4)])
+      ⟨1, 4, none, none⟩ 2 3 = .ok (1, 4) ∧ centralLabel (tlButene true) 2 = some true ∧
+    IsSlot ⟨1, 4, none, none⟩ (tlButene true).isH 0 1 ∧ IsSlot ⟨1, 4, none, none⟩ (tlButene true).isH 1 4 ∧
+    bondStep qButene (tlButene true) [(1, 1), (2, 2), (3, 3), (4, 4)] 2 3 true = .ok (endsAgrees 0 1 true true) ∧
+    bondStep qButene (tlButene false) [(1, 1), (2, 2), (3, 3), (4, 4)] 2 3 true = .ok false := by
+  refine ⟨by decide, by decide, rfl, rfl, by decide, by decide⟩
+
+example : EndsWF ⟨1, 4, none, none⟩ (fun _ => false) :=
+  ⟨rfl, rfl, by simp, by simp, by decide, by simp, by simp, by simp, by simp, by simp⟩
+
+end stereoExamples
 
 end ChythonModel.Props.C07
